@@ -63,9 +63,15 @@ def make_spec(st, idx, tier):
         ns = dict(weights=None, base=int(rng.integers(0, 50)), alphas=[0.9, 0.7])
     other = make_profile(rng, world, dict(PROFILE))
     A = dict(role="repeat", national_summary=ns)
+    # the poll with other arguments also asks for a national summary, at OTHER levels and base (when it is a bootstrap run)
+    other_ns = dict(weights=None, base=7, alphas=[0.5, 0.99]) if other["pi_method"] == "bootstrap" and "postal_code" in other["aggregates"] else None
+    if other_ns:
+        other["aggregates"] = ["postal_code"] + [a for a in other["aggregates"] if a != "postal_code"]
+    same_kind_ns = dict(weights=None, base=3, alphas=[0.6]) if ns is not None else None
     seq = [dict(k="poll", role="reference", fresh_client=True, national_summary=ns),
            dict(A, k="poll", history="same_client"),
-           dict(k="poll", role="other_args", override=other),
+           dict(k="poll", role="other_args", override=other, national_summary=other_ns),
+           dict(k="poll", role="other_args", national_summary=same_kind_ns) if same_kind_ns else dict(k="poll", role="other_args", override=dict(prediction_intervals=[0.55])),
            dict(A, k="poll", history="after_other_args"),
            dict(k="crash"),
            dict(A, k="poll", history="fresh_client_after_crash"),
